@@ -1229,7 +1229,9 @@ func onCloseParagraph(source []byte, originalBlock *Block) []*Block {
 	if originalBlock.Kind() == SetextHeadingKind {
 		blockStart := originalBlock.inlineChildren[len(originalBlock.inlineChildren)-1].Span().End
 		lineStart := blockStart
-		for source[lineStart] == ' ' || source[lineStart] == '\t' {
+		// Skip indentation and, inside containers, block quote markers:
+		// the underline itself starts with '=' or '-'.
+		for source[lineStart] == ' ' || source[lineStart] == '\t' || source[lineStart] == '>' {
 			lineStart++
 		}
 		setextOrphanParagraph = &Block{
